@@ -232,3 +232,11 @@ Definition run (i : ops) : outs := run_with step i.
 (** The property oracle of C11 is the specification itself (Model/StreamSpec.v). *)
 Definition oracle (i : ops) (o : outs) : bool := spec_oracle i o.
 Definition oracle_trace := StreamSpec.oracle_trace.
+
+(** States reachable from a configuration (used to state the full theorems). *)
+Definition reach_sm (cfg : list Z) (i : ops) : option st :=
+  match cfg with
+  | [0; sd; mru; mrb; rw; srw; pmb; pmu] =>
+      Some (fst (run_from step (init sd mru mrb rw srw pmb pmu) i))
+  | _ => None
+  end.
